@@ -96,6 +96,14 @@ class Tracer:
         self.rowhex = rowhex
         self.model = model
         self.scenario = scenario
+        # an independent copy of the user's weather table, by date (taken before the model has touched it)
+        self._wxref = {}
+        try:
+            wdf = model.weather_df
+            for dte, a, b, c, d in zip(wdf["Date"], wdf["MinTemp"], wdf["MaxTemp"], wdf["Precipitation"], wdf["ReferenceET"]):
+                self._wxref[ordinal(dte)] = (float(a), float(b), float(c), float(d))
+        except Exception:
+            self._wxref = {}
         self._depth_plan = sorted((scenario or {}).get("irr", {}).get("depth_plan", []) if (scenario or {}).get("irr") else [])
         self.events = []
         self.cfg = None
@@ -229,6 +237,20 @@ class Tracer:
               "sched": to_num(s_today), "depth": to_num(a[6]), "maxSeason": to_num(a[7]),
               "stage": int(a[8]), "irrCumPrev": to_num(a[9]), "dap": int(a[14]), "gs": bool(a[19]),
               "depl": to_num(dep), "taw": to_num(taw), "irrCum": to_num(cum), "irr": to_num(irr)}
+        # the root-zone depletion the decision is based on, re-derived by the harness from the state the stage was given (root_zone_water called
+        # on its own: root-zone depletion + yesterday's demand - today's rain + runoff - water held above field capacity in the root zone)
+        if bool(a[19]):
+            try:
+                from aquacrop.solution.root_zone_water import root_zone_water as _rzw
+                crop, prof = a[16], a[17]
+                r = _rzw(prof, float(a[12]), np.asarray(a[13], dtype=float), a[18], float(crop.Zmin), crop.Aer)
+                dr_rz, taw_rz, th_act, th_fc = float(r[2]), float(r[4]), float(r[5]), float(r[7])
+                abv = (th_act - th_fc) * 1000.0 * max(float(a[12]), float(crop.Zmin)) if th_act > th_fc else 0.0
+                rain, runoff = float(a[20]), float(a[21])
+                ev["deplExp"] = to_num(dr_rz + float(a[11]) + float(a[10]) - rain + runoff - abv)
+                ev["tawExp"] = to_num(taw_rz)
+            except Exception:
+                pass
         return self._wp(ev, th=self._cond().th)
 
     def _ev_infiltration(self, a, k, ret):
@@ -550,6 +572,7 @@ class Tracer:
         ev = {"e": "DayBegin", "tsc": tsc, "date": ordinal(cs.step_start_time), "season": int(cs.season_counter),
               "P": to_num(wrow[2]), "ET0": to_num(wrow[3]), "Tmin": to_num(wrow[0]), "Tmax": to_num(wrow[1]),
               "wxDate": ordinal(wrow[4]),
+              **({"wxRef": vec(self._wxref[ordinal(cs.step_start_time)])} if ordinal(cs.step_start_time) in self._wxref else {}),
               "dapPrev": pre["dap"], "mature": pre["mature"], "dead": pre["dead"], "harvested": pre["harvested"],
               "irrCumPrev": to_num(ic.irr_cum), "irrNetCumPrev": to_num(ic.irr_net_cum), "gddCumPrev": to_num(ic.gdd_cum),
               "zrootPrev": to_num(ic.z_root), "hiPrev": to_num(ic.harvest_index), "hiAdjPrev": to_num(ic.harvest_index_adj),
@@ -651,12 +674,7 @@ def trace_scenario(sc, level="full", max_steps=None, rowhex=False):
         if sc.get("_prelude"):
             # ANOTHER model (the listed keys overridden - typically another window) is built from the very same user objects and run first;
             # the traced model is then built from those used objects (call-history dimension: shared objects across models)
-            objs = S.make_objects(sc)
-            pre = dict(sc)
-            pre.update(sc["_prelude"])
-            m0 = S.make_model(pre, objs)
-            m0.run_model(till_termination=True)
-            model = S.make_model(sc, objs)
+            model, _ = S.make_model_after_prelude(sc)
         else:
             model = S.make_model(sc)
     except BaseException as exc:  # constructor-level rejection
